@@ -26,10 +26,18 @@ ASSUMPTIONS = [
     "variable names: the implementation's strings are mapped onto the model's structured variables "
     "('b2_x_3.5' -> VxL 2 (position of 3.5 in carrier.xcoords), 'aux_n' -> Aux n, 'robdd_n' -> Node n); the harness "
     "checks on every case that the mapping is one-to-one on the names that occur",
-    "minimum-error mode only (ratio >= 1; the tool's --minarea mode is not modelled); Expr.__rmul__ uses int(ratio); "
-    "the cost of a shape is sum over its cells of int(ratio)*int(factor*p*w*h) - int(factor*w*h) as in rect.area",
-    "ratio > 1 and a positive theoretical best area (otherwise solve divides by zero when it computes the quality "
-    "it prints) - the generator keeps to that",
+    "minimum-error mode = the 'Min error approach' branch of solve (ratio >= 1: --minerr f = 2 (default), --maxdiff "
+    "f = 3, --sf d >= 1); the other branch (ratio < 1, 'Min area approach': --minarea f = 0.89, --sf d < 1) posts two "
+    "different inequalities and returns a different pair; the property quantifies over the cost bounds of the "
+    "minimum-error mode only, so that branch is outside it (the model returns None there and the generator never "
+    "produces ratio < 1); the shape part of the formula (C08_shapes_exact) is the same in both branches",
+    "Expr.__rmul__ uses int(ratio); the cost of a shape is sum over its cells of "
+    "int(ratio)*int(factor*p*w*h) - int(factor*w*h) as in rect.area",
+    "carrier.theoreticalBestArea is set as main does (sum of area(b, True)); it is 0 when the module is absent "
+    "from every cell or every occupied area truncates to 0 - admissible inputs (4% all-zero occupancies, the "
+    "'tiny' axis style, ratio = 1 in 5% of the cases): solve must still return its shape "
+    "(fixes/C08-quality-zero-division.diff; the unrepaired code raised ZeroDivisionError after solving)",
+    "occupancy values are not restricted to [0, 1]: 0, quarters up to 1, 5/4 and 2 are generated",
     "coordinates and occupancies are dyadic so that every product the code forms is exact in binary64",
     "PySAT is trusted as sound and complete (Section variable sat_o in the theorems)",
     "the process-wide diagram store is reset to [0, 1] before a case and then filled by the case's own earlier "
@@ -59,6 +67,11 @@ def gen_axis(rng, n, style):
         if xs[-1].denominator == 1:
             xs[-1] += Fraction(1, 2)
         return xs
+    if style == "tiny":      # cells so small that int(factor * w * h) can be 0
+        xs = [rng.choice([Fraction(0), Fraction(1, 2), Fraction(-1, 4)])]
+        for _ in range(n):
+            xs.append(xs[-1] + Fraction(rng.choice([1, 1, 2, 3]), rng.choice([8, 16])))
+        return xs
     # shifted origin (positive, negative - so that 0 may be an inner line - or fractional)
     o = rng.choice([Fraction(1), Fraction(-1), Fraction(-2), Fraction(3), Fraction(1, 2), Fraction(-3, 4), Fraction(5, 4)])
     xs = [o]
@@ -68,9 +81,13 @@ def gen_axis(rng, n, style):
     return xs
 
 
-STYLES = ["unit0", "int0", "frac0", "shift-int", "shift-frac"]
-SIZES = [(1, 1), (2, 1), (1, 2), (3, 1), (1, 3), (2, 2), (3, 2), (2, 3), (3, 3), (3, 3), (4, 1), (4, 2), (2, 4),
-         (4, 3), (3, 4), (4, 4), (5, 2), (2, 5), (5, 3), (3, 5), (5, 4), (4, 5), (5, 5), (5, 1), (1, 5)]
+STYLES = ["unit0", "int0", "frac0", "shift-int", "shift-frac", "unit0", "int0", "frac0", "shift-int", "shift-frac",
+          "tiny"]
+# the first 10 are the "small" sizes (every other case): half of them a single row or column
+SIZES = [(1, 1), (2, 1), (1, 2), (3, 1), (1, 3), (2, 2), (3, 2), (2, 3), (3, 3), (1, 4), (4, 1), (4, 2), (2, 4),
+         (4, 3), (3, 4), (4, 4), (5, 2), (2, 5), (5, 3), (3, 5), (5, 4), (4, 5), (5, 5), (5, 1), (1, 5), (3, 3),
+         (6, 1), (1, 6)]
+OCC = [Fraction(v, 4) for v in (0, 0, 1, 2, 3, 4, 4, 4, 5, 8)]     # 0, values inside (0, 1], above 1 (5/4, 2)
 
 
 def grid_cells(xs, ys, order):
@@ -119,15 +136,17 @@ def gen_case(rng, small=False):
             cells.insert(rng.randrange(len(cells) + 1), [xs[0], ys[-1], xs[1], ys[-1]])
         kind = "degenerate"
     factor = rng.choice([4, 8, 16]) if n <= 12 else rng.choice([2, 4])
-    occ = [Fraction(rng.choice([0, 0, 1, 2, 3, 4, 4]), 4) for _ in cells]
+    m = rng.random()
+    if m < 0.04:                       # the module is absent from every cell (theoretical area 0)
+        occ = [Fraction(0) for _ in cells]
+    elif m < 0.07:                     # 0 / 1 occupancies only (an exactly rectilinear region or nearly)
+        occ = [Fraction(rng.choice([0, 1, 1])) for _ in cells]
+    else:
+        occ = [rng.choice(OCC) for _ in cells]
     case = {"kind": kind, "cells": cells, "occ": occ, "k": rng.choice([1, 2, 2, 3, 3]), "factor": factor,
-            "ratio": rng.choice([Fraction(2), Fraction(2), Fraction(3), Fraction(5, 2), Fraction(3, 2)]), "bound": 0,
+            "ratio": rng.choice([Fraction(2)] * 8 + [Fraction(3)] * 4 + [Fraction(5, 2)] * 4 + [Fraction(3, 2)] * 3 +
+                                [Fraction(1)]), "bound": 0,
             "history": None}
-    if all(s == 0 for s, _ in coefs(case)):
-        good = [j for j, c in enumerate(cells) if c[0] < c[2] and c[1] < c[3]]
-        case["occ"][rng.choice(good)] = Fraction(1)
-    while all(s == 0 for s, _ in coefs(case)):      # int(factor * p * w * h) == 0 everywhere: solve would divide by 0
-        case["factor"] *= 4
     cc = cell_costs(case)
     maxpos = sum(c for c in cc if c > 0)
     minneg = sum(c for c in cc if c < 0)
@@ -187,6 +206,8 @@ def call_solve(case):
                 ret = R.solve(car, ifile, float(case["ratio"]), (int(case["bound"]), 1), int(case["k"]))
             except KeyError:
                 ret = "KeyError"
+            except ZeroDivisionError:
+                ret = "ZeroDivisionError"
     finally:
         SM.SATManager = orig
     return car, (made[0] if made else None), ret
@@ -246,13 +267,17 @@ def run_impl(case):
     obs = {"xs": list(car.xcoords), "ys": list(car.ycoords),
            "prevx": [[k, v] for k, v in car.prev_x.items()], "nextx": [[k, v] for k, v in car.next_x.items()],
            "prevy": [[k, v] for k, v in car.prev_y.items()], "nexty": [[k, v] for k, v in car.next_y.items()],
-           "blocks": list(car.blocks), "keyerror": ret == "KeyError"}
+           "blocks": list(car.blocks), "keyerror": ret == "KeyError", "zerodiv": ret == "ZeroDivisionError",
+           "tba": int(car.theoreticalBestArea)}
     # the store of the history: its decision variables are "b_<n>" names as well
     obs["mem0"] = mem_nodes(mem0_raw, nmap)
     if obs["keyerror"]:
         return obs
     obs["clauses"] = [[[nmap.var(l.v), bool(l.s)] for l in c] for c in sm.clauses]
+    if obs["zerodiv"]:
+        return obs
     (c1, c2), rects, quality = ret
+    obs["quality"] = float(quality)
     obs["ret"] = [int(c1), int(c2)]
     obs["sat"] = len(rects) > 0 or (c1, c2) != (0, 1)
     obs["rects"] = [None if r[0] == float("inf") else [r[0], r[1], r[2], r[3]] for r in rects]
@@ -325,6 +350,8 @@ def gmem(nodes):
 
 
 def to_coq(case, obs):
+    if obs.get("zerodiv"):
+        return "false"     # the model (repaired code) returns a result on every input; solve raised ZeroDivisionError
     o = (f"(mkObs8 {glist([gq(x) for x in obs['xs']])} {glist([gq(x) for x in obs['ys']])} "
          f"{gdict(obs['prevx'])} {gdict(obs['nextx'])} {gdict(obs['prevy'])} {gdict(obs['nexty'])} "
          f"{gbool(obs['keyerror'])} ")
@@ -336,6 +363,9 @@ def to_coq(case, obs):
               f"{glist([gbox(r) for r in obs['rects']])})")
     e = (f"c08_check Repaired {gproblem(case)} {case['k']} {gq(case['factor'])} {gq(case['ratio'])} "
          f"{gz(case['bound'])} {gmem(obs['mem0'])} {o}")
+    if not obs["keyerror"]:
+        e = (f"({e}) && c08_quality_check {gproblem(case)} {gq(case['factor'])} {gq(case['ratio'])} {gz(obs['tba'])} "
+             f"{gbool(obs['sat'])} {glist([gvar(v) for v in obs.get('true', [])])} {gq(obs['quality'])}")
     if "models" in obs and len(obs["models"]) <= 4000:
         ms = glist([glist([glist([gbool(x) for x in row]) for row in m]) for m in obs["models"]])
         e = (f"({e}) && c08_models_check {gproblem(case)} {case['k']} {gq(case['factor'])} {gq(case['ratio'])} "
@@ -445,6 +475,10 @@ def oracle(case, obs):
     nx, ny, n, k = len(xs) - 1, len(ys) - 1, len(case["cells"]), case["k"]
     if obs["keyerror"]:
         return "solve: KeyError on a full grid"
+    if obs.get("zerodiv"):
+        return ("solve: raised ZeroDivisionError on a full grid instead of returning a shape or (0, 1), [] "
+                f"(ratio {case['ratio']}, theoretical area {obs['tba']}: the quality it prints divides by "
+                "(ratio - 1) * theoretical area)")
     if [Fraction(x) for x in obs["xs"]] != xs or [Fraction(y) for y in obs["ys"]] != ys:
         return "coords: definecoords does not return the sorted coordinate lists of the grid"
     cc = cell_costs(case)
@@ -515,6 +549,8 @@ def origin_zero_integral(case):
 
 def failure_key(case, why):
     head = (why or "").split(":")[0]
+    if "ZeroDivisionError" in (why or ""):
+        return "C08/quality-zero-division"
     if head in ("models", "solve") and case.get("kind") == "grid" and not origin_zero_integral(case) \
             and case.get("k", 1) >= 2:
         return "C08/border-tests"          # F10: only grids with a shifted origin or a fractional extent
@@ -524,27 +560,14 @@ def failure_key(case, why):
 # --------------------------------------------------------------------------
 # shrinking: smaller grids, fewer boxes, plainer numbers
 # --------------------------------------------------------------------------
-def in_domain(case):
-    """solve divides by (ratio - 1) * theoreticalBestArea: keep shrunk cases where that is not zero."""
-    return case["ratio"] > 1 and any(s > 0 for s, _ in coefs(case))
-
-
 def rebuild(case, xs, ys):
     nx, ny = len(xs) - 1, len(ys) - 1
     cells = grid_cells(xs, ys, list(range(nx * ny)))
-    c = dict(case, cells=cells, occ=[Fraction(1)] * len(cells), history=None)
-    while not any(s > 0 for s, _ in coefs(c)):
-        c["factor"] *= 4
-    return c
+    p = Fraction(0) if all(q == 0 for q in case["occ"]) else Fraction(1)     # keep "the module is absent"
+    return dict(case, cells=cells, occ=[p] * len(cells), history=None)
 
 
 def shrink(case):
-    for c in shrink_all(case):
-        if in_domain(c):
-            yield c
-
-
-def shrink_all(case):
     if case.get("history"):
         yield dict(case, history=None)
     g = grid_index(case) if case["kind"] == "grid" else None
@@ -562,8 +585,9 @@ def shrink_all(case):
             if len(ys) > 2:
                 c = rebuild(case, xs, ys[:i] + ys[i + 1:])
                 yield dict(c, bound=-10 ** 6)
-        if list(pos.values()) != sorted(pos.values()) or any(p != 1 for p in case["occ"]):
-            yield dict(rebuild(case, xs, ys), bound=-10 ** 6)
+        rb = rebuild(case, xs, ys)
+        if rb["cells"] != case["cells"] or rb["occ"] != case["occ"]:
+            yield dict(rb, bound=-10 ** 6)
     if case["k"] > 1:
         yield dict(case, k=case["k"] - 1)
     if case["ratio"] != 2:
@@ -598,7 +622,7 @@ def run(ctx, out, replay=None):
     cases += fr.load_corpus("C08")
     while len(cases) < n:
         cases.append(gen_case(ctx.rng, small=(len(cases) % 2 == 0)))
-    stats = {"sat": 0, "unsat": 0, "keyerror": 0, "enumerated_instances": 0, "models_enumerated": 0,
+    stats = {"sat": 0, "unsat": 0, "keyerror": 0, "zerodiv": 0, "zero_quality_denominator": 0, "enumerated_instances": 0, "models_enumerated": 0,
              "max_clauses": 0, "with_diagram": 0}
 
     def run_counted(case):
@@ -606,6 +630,11 @@ def run(ctx, out, replay=None):
         if obs["keyerror"]:
             stats["keyerror"] += 1
             return obs
+        if obs.get("zerodiv"):
+            stats["zerodiv"] += 1
+            return obs
+        if obs["tba"] == 0 or case["ratio"] == 1:
+            stats["zero_quality_denominator"] += 1
         stats["sat" if obs["sat"] else "unsat"] += 1
         stats["max_clauses"] = max(stats["max_clauses"], len(obs["clauses"]))
         if any(l[0][0] == "R" and l[0][1] >= 2 for c in obs["clauses"] for l in c):
